@@ -1,7 +1,309 @@
-// correspondence + search binary for property C19 (stub)
+// C19 — discounted accumulation: the real `Profile::add_regret`, `add_policy`, `next`, `walker`,
+// `weight`, `Discount::policy/regret`, `Phase::from` on random sequences of per-epoch regret and
+// strategy vectors at one information set (lengths 1..2000), against
+//   (a) the Lean model (binary32 instantiation of the definitions the theorems are about), and
+//   (b) the search oracle: the closed forms of the property statement evaluated in f64 — stored
+//       average strategy = sum_s p_s ((s+1)/(T+1))^gamma, normalised = (s+1)^gamma-weighted mean;
+//       stored regret = sum_s r_s w_s with w_s in (0,1], non-decreasing in s, 1 after the
+//       discount phase; walker = epoch parity starting with player 0.
+use robopoker::clustering::abstraction::Abstraction;
+use robopoker::gameplay::ply::Turn;
+use robopoker::mccfr::bucket::Bucket;
+use robopoker::mccfr::discount::Discount;
+use robopoker::mccfr::edge::Edge;
+use robopoker::mccfr::odds::Odds;
+use robopoker::mccfr::path::Path;
+use robopoker::mccfr::phase::Phase;
+use robopoker::mccfr::policy::Policy;
+use robopoker::mccfr::profile::Profile;
+use robopoker::mccfr::regret::Regret;
+use robopoker::verif::{CFR_DISCOUNT_PHASE, CFR_PRUNNING_PHASE};
+use rpharness::*;
+use std::collections::BTreeMap;
+use std::panic::AssertUnwindSafe;
+
+// the configured exponents, read from the property's anchor (discount.rs: Discount::default);
+// the oracle deliberately has its own copy: a change of the source constants must show up as a
+// disagreement with the specification the property was written against
+const GAMMA: f64 = 2.0;
+const ALPHA: f64 = 1.5;
+const OMEGA: f64 = 0.5;
+
+fn tok(x: f32) -> String {
+    format!("~{:e}", x as f64)
+}
+
+fn walker_of(p: &Profile) -> String {
+    match p.walker().0 {
+        Turn::Choice(k) => k.to_string(),
+        other => format!("{other}"),
+    }
+}
+
+fn menu(rng: &mut Rng, n: usize) -> Vec<Edge> {
+    let all = [
+        Edge::Fold, Edge::Check, Edge::Call, Edge::Shove,
+        Edge::Raise(Odds(1, 2)), Edge::Raise(Odds(1, 1)), Edge::Raise(Odds(2, 1)), Edge::Raise(Odds(3, 4)),
+    ];
+    let mut pool: Vec<Edge> = all.to_vec();
+    let mut out = vec![];
+    for _ in 0..n {
+        let i = rng.below(pool.len() as u64) as usize;
+        out.push(pool.swap_remove(i));
+    }
+    out.sort();
+    out
+}
+
+fn regret_value(rng: &mut Rng, style: u64) -> f32 {
+    match style {
+        0 => (rng.unit() * 200.0 - 100.0) as f32,
+        1 => if rng.chance(1, 3) { 0.0 } else { (rng.unit() * 2e4 - 1e4) as f32 },
+        2 => (rng.range(-3, 3) as f32) * 0.5,
+        3 => -(rng.unit() * 3e5) as f32,
+        4 => (rng.unit() * 50.0) as f32,
+        _ => {
+            let m = f32::from_bits(0x3000_0000 + rng.below(0x1800_0000) as u32); // 4.6e-10 .. 1.8e19
+            if rng.chance(1, 2) { m } else { -m }
+        }
+    }
+}
+
+/// d_u of the property statement (f64): the factor applied at counter u when a regret of the
+/// given sign is added
+fn d_spec(u: usize, r: f64) -> f64 {
+    if u >= CFR_DISCOUNT_PHASE || r == 0.0 {
+        1.0
+    } else {
+        let x = (u as f64).powf(if r > 0.0 { ALPHA } else { OMEGA });
+        x / (x + 1.0)
+    }
+}
+
 fn main() {
-    let a = rpharness::args();
-    let mut run = rpharness::Run::new(&a.out);
-    run.rule = "stub".into();
+    let a = args();
+    let mut rng = Rng::new(a.seed);
+    let mut run = Run::new(&a.out);
+    quiet_panics();
+    let nseq = if a.thorough() { 6000 } else { 260 };
+
+    for case in 0..nseq {
+        let n = 1 + rng.below(5) as usize;
+        let len = match case % 6 {
+            0 => 1 + rng.below(4) as usize,
+            1 => 1 + rng.below(40) as usize,
+            2 => 2000,
+            3 => CFR_DISCOUNT_PHASE - 5 + rng.below(40) as usize,
+            _ => 1 + rng.below(2000) as usize,
+        };
+        let start = match rng.below(10) {
+            0 => 1 + rng.below(3) as usize,
+            1 => CFR_DISCOUNT_PHASE - 10 + rng.below(20) as usize,
+            2 => CFR_PRUNNING_PHASE - 10 + rng.below(20) as usize,
+            3 => rng.below(5000) as usize,
+            _ => 0,
+        };
+        let edges = menu(&mut rng, n);
+        let bucket = Bucket::from((Path::from(rng.next() >> 4), Abstraction::from((rng.next() % 169) as u64), Path::from(rng.next() >> 4)));
+        // prior: what `witness` stores (regret 0, policy 1/n), or arbitrary values (a loaded profile)
+        let witnessed = rng.chance(3, 4);
+        let prior: Vec<(f32, f32)> = (0..n)
+            .map(|_| if witnessed { (0.0, 1.0 / n as f32) } else { ((rng.unit() * 100.0 - 50.0) as f32, rng.unit() as f32) })
+            .collect();
+        let style = rng.below(6);
+        let dist = rng.chance(3, 4); // per-epoch strategies are distributions (else arbitrary non-negative weights)
+        let mut rs: Vec<Vec<f32>> = vec![];
+        let mut ps: Vec<Vec<f32>> = vec![];
+        for _ in 0..len {
+            rs.push((0..n).map(|_| regret_value(&mut rng, style)).collect());
+            let mut p: Vec<f32> = (0..n).map(|_| if rng.chance(1, 6) { 0.0 } else { rng.unit() as f32 }).collect();
+            if dist {
+                if p.iter().all(|x| *x == 0.0) {
+                    p[0] = 1.0;
+                }
+                let s: f32 = p.iter().sum();
+                p.iter_mut().for_each(|x| *x /= s);
+            }
+            ps.push(p);
+        }
+
+        // ---- the real code
+        let mut profile = Profile::default();
+        let fresh_walker = walker_of(&profile);
+        let fresh_epochs = profile.epochs();
+        for (e, (r, p)) in edges.iter().zip(prior.iter()) {
+            profile.verif_set_memory(&bucket, e, *r, *p);
+        }
+        profile.verif_set_epochs(start);
+        let mut walkers = vec![walker_of(&profile)];
+        let mut counters = vec![profile.epochs()];
+        let ok = catch(AssertUnwindSafe(|| {
+            for s in 0..len {
+                let rmap: BTreeMap<Edge, f32> = edges.iter().cloned().zip(rs[s].iter().cloned()).collect();
+                let pmap: BTreeMap<Edge, f32> = edges.iter().cloned().zip(ps[s].iter().cloned()).collect();
+                profile.add_regret(&bucket, &Regret::from(rmap));
+                profile.add_policy(&bucket, &Policy::from(pmap));
+                counters.push(profile.next());
+                walkers.push(walker_of(&profile));
+            }
+        }));
+        run.evaluations += 1;
+        let mut op = format!("seq {start} {n} {len}");
+        for (r, p) in &prior {
+            op.push_str(&format!(" {} {}", r.to_bits(), p.to_bits()));
+        }
+        for s in 0..len {
+            for i in 0..n {
+                op.push_str(&format!(" {} {}", rs[s][i].to_bits(), ps[s][i].to_bits()));
+            }
+        }
+        let what = format!("seq case {case}: start {start}, {n} actions, {len} epochs, regret style {style}, {} priors, {} strategies",
+            if witnessed { "witnessed" } else { "loaded" }, if dist { "normalised" } else { "unnormalised" });
+        if ok.is_none() {
+            run.line(&op, "panic");
+            run.fail("accumulation-panics", &what, "no abort", "panic");
+            continue;
+        }
+        let stored: Vec<(f32, f32)> = edges.iter().map(|e| profile.verif_memory(&bucket, e).expect("stored")).collect();
+        let weights: Vec<f32> = edges.iter().map(|e| profile.weight(&bucket, e)).collect();
+        let mut ans = format!("{} {}", profile.epochs(), walker_of(&profile));
+        for i in 0..n {
+            ans.push_str(&format!(" {} {} {}", tok(stored[i].0), tok(stored[i].1), tok(weights[i])));
+        }
+        run.line(&op, &ans);
+        run.distinct(&op);
+        run.count(match len { 1..=4 => "len=1..4", 5..=40 => "len=5..40", 41..=389 => "len=41..389", 390..=1999 => "len=390..1999", _ => "len=2000" });
+        run.count(&format!("actions={n}"));
+        run.count(if start == 0 { "start=0" } else if start < CFR_DISCOUNT_PHASE { "start<discount-phase" } else { "start>=discount-phase" });
+        run.count(&format!("regret-style={style}"));
+
+        // ---- search oracle (f64 closed forms)
+        run.spec_checked += 1;
+        // traversers alternate, starting with player 0 on a fresh profile
+        if fresh_walker != "0" || fresh_epochs != 0 {
+            run.fail("fresh-profile-not-player-0", &what, "epoch 0, walker 0", &format!("epoch {fresh_epochs}, walker {fresh_walker}"));
+        }
+        for s in 0..=len {
+            if counters[s] != start + s || walkers[s] != ((start + s) % 2).to_string() {
+                run.fail("walker-does-not-alternate", &format!("{what}, after {s} epochs"), &format!("counter {} walker {}", start + s, (start + s) % 2), &format!("counter {} walker {}", counters[s], walkers[s]));
+                break;
+            }
+        }
+        let tt = (start + len) as f64; // T + 1 when start = 0
+        for i in 0..n {
+            // average strategy: sum_s p_s ((start+s+1)/(start+len))^gamma  (+ prior (start/(start+len))^gamma)
+            let mut want = prior[i].1 as f64 * (start as f64 / tt).powf(GAMMA);
+            let mut mag = want.abs();
+            for s in 0..len {
+                let term = ps[s][i] as f64 * ((start + s + 1) as f64 / tt).powf(GAMMA);
+                want += term;
+                mag += term.abs();
+            }
+            let got = stored[i].1 as f64;
+            if (got - want).abs() > 1e-4 * mag + 1e-30 {
+                run.fail("policy-not-polynomially-weighted-sum", &format!("{what}, action {i}"), &format!("{want:e}"), &format!("{got:e}"));
+                break;
+            }
+        }
+        // normalised: the (s+1)^gamma-weighted mean of the per-epoch strategies
+        if start == 0 && dist {
+            let z: f64 = (0..len).map(|s| ((s + 1) as f64).powf(GAMMA)).sum();
+            for i in 0..n {
+                let want: f64 = (0..len).map(|s| ((s + 1) as f64).powf(GAMMA) * ps[s][i] as f64).sum::<f64>() / z;
+                let got = weights[i] as f64;
+                if (got - want).abs() > 1e-4 * want + 1e-6 {
+                    run.fail("average-strategy-not-weighted-mean", &format!("{what}, action {i}"), &format!("{want:e}"), &format!("{got:e}"));
+                    break;
+                }
+            }
+        }
+        // regret: sum_s r_s w_s, w_s = prod_{u>s} d_u (the range and monotonicity of the single
+        // factors the code applies is observed below, counter by counter)
+        for i in 0..n {
+            let mut w = vec![1.0f64; len + 1]; // w[s+1] for the vector of epoch s; w[0] for the prior
+            for s in (0..len).rev() {
+                w[s] = w[s + 1] * d_spec(start + s, rs[s][i] as f64);
+            }
+            let mut want = prior[i].0 as f64 * w[0];
+            let mut mag = want.abs();
+            for s in 0..len {
+                let term = rs[s][i] as f64 * w[s + 1];
+                want += term;
+                mag += term.abs();
+            }
+            let got = stored[i].0 as f64;
+            if (got - want).abs() > 1e-4 * mag + 1e-30 {
+                run.fail("regret-not-discounted-sum", &format!("{what}, action {i}"), &format!("{want:e}"), &format!("{got:e}"));
+                break;
+            }
+        }
+    }
+
+    // ---- single factors, phases, walker, next
+    let d = Discount::default();
+    let mut ts: Vec<usize> = (0..=(CFR_DISCOUNT_PHASE + 20)).collect();
+    ts.extend((CFR_PRUNNING_PHASE - 3)..(CFR_PRUNNING_PHASE + 3));
+    for _ in 0..400 {
+        let width = 1 + rng.below(40);
+        ts.push(rng.below(1u64 << width) as usize);
+    }
+    let mut profile = Profile::default();
+    let bucket = Bucket::from((Path::from(7u64), Abstraction::from(3u64), Path::from(9u64)));
+    for &t in &ts {
+        run.evaluations += 1;
+        run.spec_checked += 1;
+        let dp = d.policy(t);
+        run.line(&format!("dpolicy {t}"), &tok(dp));
+        let want = (t as f64 / (t as f64 + 1.0)).powf(GAMMA);
+        if (dp as f64 - want).abs() > 1e-6 {
+            run.fail("policy-discount-not-(t/(t+1))^gamma", &format!("t = {t}"), &format!("{want:e}"), &format!("{dp:e}"));
+        }
+        for r in [1.0f32, -1.0, 0.0, 123.5, -0.001] {
+            // the factor actually applied by Profile::add_regret: observe it on a stored 1.0
+            profile.verif_set_memory(&bucket, &Edge::Call, 1.0, 1.0);
+            profile.verif_set_epochs(t);
+            let one: BTreeMap<Edge, f32> = [(Edge::Call, r)].into_iter().collect();
+            profile.add_regret(&bucket, &Regret::from(one));
+            let after = profile.verif_memory(&bucket, &Edge::Call).unwrap().0;
+            let phase_factor = match Phase::from(t) {
+                Phase::Discount => d.regret(t, r),
+                _ => 1.0,
+            };
+            run.line(&format!("dregret {t} {}", r.to_bits()), &tok(phase_factor));
+            let want = d_spec(t, r as f64);
+            if (phase_factor as f64 - want).abs() > 1e-6 || ((after - r) as f64 - want).abs() > 1e-4 {
+                run.fail("regret-discount-differs-from-spec", &format!("t = {t}, added regret {r}"), &format!("{want:e}"), &format!("factor {phase_factor:e}, observed {:e}", after - r));
+            }
+            if t >= 1 && !(phase_factor > 0.0 && phase_factor <= 1.0) {
+                run.fail("regret-weight-outside-spec", &format!("t = {t}, added regret {r}"), "(0,1]", &format!("{phase_factor:e}"));
+            }
+        }
+        let ph = match Phase::from(t) {
+            Phase::Discount => 0,
+            Phase::Explore => 1,
+            Phase::Prune => 2,
+        };
+        run.line(&format!("phase {t}"), &ph.to_string());
+        let want_ph = if t < CFR_DISCOUNT_PHASE { 0 } else if t < CFR_PRUNNING_PHASE { 1 } else { 2 };
+        if ph != want_ph {
+            run.fail("phase-boundary", &format!("t = {t}"), &want_ph.to_string(), &ph.to_string());
+        }
+        profile.verif_set_epochs(t);
+        run.line(&format!("walker {t}"), &walker_of(&profile));
+        let nx = profile.next();
+        run.line(&format!("next {t}"), &nx.to_string());
+        if nx != t + 1 || walker_of(&profile) != ((t + 1) % 2).to_string() {
+            run.fail("walker-does-not-alternate", &format!("next at {t}"), &format!("{} walker {}", t + 1, (t + 1) % 2), &format!("{nx} walker {}", walker_of(&profile)));
+        }
+    }
+
+    run.rule = format!(
+        "{nseq} sequences at one information set: 1-5 actions, length in {{1..4, 1..40, 2000, around the discount-phase boundary {CFR_DISCOUNT_PHASE}, 1..2000}}, \
+         counter starting at 0 (6/10) or 1..3 / around the discount boundary / around the pruning boundary / <5000, priors as stored by witness (3/4) or arbitrary as after load, \
+         6 regret styles (uniform +-100, sparse +-1e4 with zeros, half-integers with zeros, all negative down to the clamp, all positive, +- over 29 binary orders of magnitude), \
+         per-epoch strategies normalised (3/4) or arbitrary non-negative with zeros; every epoch = real add_regret + add_policy + next; final stored regret, policy, weight(), counter, walker compared; \
+         plus Discount::policy, the regret factor seen through add_regret for 5 regret signs, Phase::from, walker, next at {} counters. A sequence is non-trivial when it has >= 1 epoch (all); distinct by the full op line",
+        ts.len()
+    );
     run.finish();
 }
